@@ -198,7 +198,7 @@ fn supervise(args: &Args) -> i32 {
             Some(1) => found += 1,
             _ => {
                 // reproduced: abort or hang in isolation
-                let what = if timed_out { "hang" } else { "abort" };
+                let what = if timed_out || kind == "hang" { "hang" } else { "abort" };
                 let path = format!("{}/replays/{}-crash-{}-{}.json", verif_dir(), args.prop, sub, idx);
                 let _ = std::fs::create_dir_all(format!("{}/replays", verif_dir()));
                 let body = serde_json::json!({
